@@ -609,6 +609,9 @@ class Scenario(Hooks):
         self.src_snap = snap(self.work)
         self.post = snap(self.image)
         self.strays = []
+        self.all_records = []  # every closed request record, also when run() ends with a harness error
+        self.revived = 0
+        self.harness_notes = []
         self._inj = None
 
     # hooks
@@ -635,6 +638,7 @@ class Scenario(Hooks):
         rec.msgs = list(self.op.observer.msgs)
         self.post = rec.post
         self.last_rec = rec
+        self.all_records.append(rec)
 
     def stray(self, writes):
         self.strays.extend(writes)
@@ -665,22 +669,24 @@ class Scenario(Hooks):
 
 
 def revive_if_reported(sc):
-    """Once a request has died of an exhausted helper coroutine (finding helper-dead-after-error, recorded by the judge for
-    that request) the helper objects concerned are replaced, otherwise every later request to that helper would only
-    repeat the same finding."""
-    from pkgcore.ebuild import ebd_ipc
-
+    """Once a request has died of an exhausted helper coroutine (StopIteration inside the helper, recorded and judged for
+    that request) the helper object that served it is replaced by a freshly constructed one, otherwise every later request
+    to that helper would only repeat the same observation.  Nothing of the helper's internals is inspected."""
     last = getattr(sc, "last_rec", None)
-    if last is None or not last.exc or "StopIteration" not in str(last.exc.get("cause") or last.exc.get("type")):
-        return
-    for name, hlp in list(sc.op._ipc_helpers.items()):
-        if not isinstance(hlp, ebd_ipc._InstallWrapper):
-            continue
-        for attr in ("install", "install_dirs", "install_symlinks", "install_from_dirs"):
-            g = getattr(getattr(hlp, attr), "__self__", None)
-            if g is not None and getattr(g, "gi_frame", 1) is None:
-                sc.op._ipc_helpers[name] = getattr(ebd_ipc, HELPER_CLASSES[name])(sc.op)
-                break
+    try:
+        if last is None or not last.exc or "StopIteration" not in str(last.exc.get("cause") or last.exc.get("type")):
+            return
+        if getattr(last, "revived", False):
+            return
+        last.revived = True
+        name = last.frame[0]
+        old = sc.op._ipc_helpers.get(name)
+        if old is None:
+            return
+        sc.op._ipc_helpers[name] = type(old)(sc.op)
+        sc.revived = getattr(sc, "revived", 0) + 1
+    except Exception as e:  # never let the harness' housekeeping get in the way of a judgement
+        sc.harness_notes = getattr(sc, "harness_notes", []) + ["revive failed: %r" % (e,)]
 
 
 class ReviveSource(ListSource):
